@@ -309,7 +309,9 @@ def row_variants(prog, pv, r):
     return vs[0], vs[1], extra
 
 
-def check(ctx):
+def check(ctx, consistency_only=False):
+    """consistency_only: what an ordered SET of labels needs (C12) - cmp is Equal exactly on equal values, antisymmetric and
+    transitive, partial_cmp agrees - and not which total order it is (R-1's oracle comparison, R-4)"""
     prog = ctx.prog
     # Eq-consistency is stated against the derived (structural) equality of the label types
     from rules import structs_common as _S
@@ -350,11 +352,12 @@ def check(ctx):
     if undecided:
         ctx.cannot("R-1", "table-vs-cbor-order", "Label::cmp is no longer a decision tree over (variant, sign) with comparison leaves: %s" % undecided, where=f.span)
     else:
-        ctx.ob("R-1", "table-vs-cbor-order", not bad,
-               "Label::cmp's decision table agrees with bytewise comparison of deterministic CBOR encodings on all %d pairs of the boundary lattice "
-               "(%d integers across every head-width boundary of both signs, %d texts across length boundaries)" % (n, len(INTS), len(TEXTS)),
-               where=f.span, detail={"disagreements": bad[:8]},
-               sample={"rows": len(table[0]), "pairs": n, "example": {"(-1,-2)": label_cmp(-1, -2), "(23,24)": label_cmp(23, 24), "(0,-1)": label_cmp(0, -1)}})
+        if not consistency_only:
+              ctx.ob("R-1", "table-vs-cbor-order", not bad,
+                   "Label::cmp's decision table agrees with bytewise comparison of deterministic CBOR encodings on all %d pairs of the boundary lattice "
+                   "(%d integers across every head-width boundary of both signs, %d texts across length boundaries)" % (n, len(INTS), len(TEXTS)),
+                   where=f.span, detail={"disagreements": bad[:8]},
+                   sample={"rows": len(table[0]), "pairs": n, "example": {"(-1,-2)": label_cmp(-1, -2), "(23,24)": label_cmp(23, 24), "(0,-1)": label_cmp(0, -1)}})
         eqbad = [(a, b) for a, b in itertools.product(labels, labels) if (label_cmp(a, b) == "Equal") != (a == b)]
         ctx.ob("R-1", "equal-iff-same-label", not eqbad, "cmp returns Equal exactly for equal labels (consistency with the derived Eq)", where=f.span,
                detail={"offending": [repr(x)[:40] for x in eqbad[:5]]})
@@ -404,6 +407,15 @@ def check(ctx):
                 npairs += 1
                 got = table_eval(prog, gtable, a, b, variant_of, label_cmp if table is not None else None)
                 want = ordname(cmp(enc(a[1]), enc(b[1])))
+                if consistency_only:
+                    # Equal exactly on the same value, and opposite answers for the two argument orders
+                    rev = table_eval(prog, gtable, b, a, variant_of, label_cmp if table is not None else None)
+                    same = a == b or (a[1] == b[1] and want == "Equal")
+                    if (got == "Equal") != same or (not same and {got, rev} != {"Less", "Greater"}):
+                        problems.append("cmp(%s(%r), %s(%r)) = %s and the reverse %s: not a consistent order" % (a[0], a[1], b[0], b[1], got, rev))
+                        if len(problems) > 5:
+                            break
+                    continue
                 if got != want:
                     problems.append("cmp(%s(%r), %s(%r)) = %s, the labels they denote order as %s" % (
                         a[0], a[1] if isinstance(a[1], int) else a[1][:8], b[0], b[1] if isinstance(b[1], int) else b[1][:8], got, want))
@@ -418,6 +430,8 @@ def check(ctx):
                where=g.span, detail={"problems": problems[:6]}, sample={"type": ty, "paths": paths, "pairs": npairs},
                kind="cannot-decide" if undec else None)
 
+    if consistency_only:
+        return
     # R-4 cmp_canonical: evaluated over the same lattice against the length-first order of the encodings
     h = prog.fn("common::Label::cmp_canonical")
     problems = []
